@@ -4,6 +4,7 @@ import Proofs.C07Regex
 import Proofs.C07Blank
 import Proofs.C07Lit
 import Proofs.C07Lines
+import Proofs.C07Para
 /-!
 # C07 — record reading is lossless and independent of how input bytes arrive
 
@@ -40,6 +41,20 @@ theorem regex_chunk_independent (m : Bytes → Option (Nat × Nat)) (hr : InRang
 theorem blank_chunk_independent (chunks : List Bytes) :
     scan splitBlank [] chunks false = scan splitBlank [] [chunks.flatten] false :=
   Scanner.chunk_independent _ wf_blank chunks
+
+/-- RS = "" on input without carriage returns, every chunking: the records are the blank-line-separated paragraphs. Every
+record is a paragraph (`IsParagraph`: non-empty, neither begins nor ends with LF, contains no empty line `hasNN`), every
+RT is a run of LFs, at least two of them unless the record is the last one (`sepOK`), and the input's leading LFs followed
+by every record and its RT reproduce the input. (A text has exactly one decomposition `LF* (paragraph LF{2,})* [paragraph LF*]`
+of this kind, so these facts fix the record sequence; uniqueness itself is not proved here. Input with CRs — `\r\n` blank
+lines, one trailing CR dropped per record — is covered by `blank_chunk_independent` and the correspondence check only.) -/
+theorem blank_spec (chunks : List Bytes) (hcr : (13 : UInt8) ∉ chunks.flatten) :
+    (∀ p ∈ scan splitBlank [] chunks false, IsParagraph p.1 ∧ ∀ b ∈ p.2, b = 10) ∧
+    sepOK (scan splitBlank [] chunks false) = true ∧
+    chunks.flatten.takeWhile isNL ++ ((scan splitBlank [] chunks false).map fun p => p.1 ++ p.2).flatten =
+      chunks.flatten := by
+  rw [scan_eq_final _ wf_blank]
+  simpa using blank_para_final chunks.flatten hcr
 
 /-- RS = one multi-byte character or any other literal of two or more bytes (GoAWK routes these through the regex
 splitter with a quoted literal): unconditional chunk independence and losslessness. -/
@@ -105,6 +120,13 @@ example : scan splitNewline [] [[97, 13], [10, 98], [10]] false = [([97], [10]),
   simp [scan, splitNewline, indexByte, dropCR]
 example : scan splitBlank [] [[97, 10], [10, 10, 98]] false = [([97], [10, 10, 10]), ([98], [])] := by
   simp [scan, splitBlank, blankBody, findBlank, shift, isNL, dropCR, dropLF]
+-- `blank_spec` on "\n\na\nb\n\n\nc\n" delivered in three chunks: two paragraphs, the first with an inner line break
+example : scan splitBlank [] [[10, 10, 97, 10], [98, 10, 10], [10, 99, 10]] false =
+    [([97, 10, 98], [10, 10, 10]), ([99], [10])] ∧ (13 : UInt8) ∉ [[10, 10, 97, 10], [98, 10, 10], [10, 99, 10]].flatten := by
+  simp [scan, splitBlank, blankBody, findBlank, shift, isNL, dropCR, dropLF]
+example : IsParagraph [97, 10, 98] ∧ ¬ IsParagraph [97, 10, 10, 98] ∧ ¬ IsParagraph [97, 10] ∧
+    sepOK [([97], [10, 10]), ([98], [10])] = true ∧ sepOK [([97], [10]), ([98], [10])] = false := by
+  simp [IsParagraph, hasNN, sepOK]
 example : scan (splitByte 59) [] [[97, 59], [59, 98]] false = [([97], [59]), ([], [59]), ([98], [59])] := by
   simp [scan, splitByte, indexByte]
 
